@@ -14,13 +14,12 @@ def PartOk (v : SetView) : Prop := v.strat = .onDelete ∨ ∃ p, v.ru = some (s
 structure NormC (h : Hashing) (i : SyncIn) : Prop where
   spec : SpecOk i
   pods : ∀ c ∈ i.pods, c.owner = .self ∧ c.member = true ∧ c.selMatch = true ∧ c.name = canonicalName i.setName c.pod.ord ∧
-    0 ≤ c.pod.ord ∧ c.pod.ord < maxInt32 ∧ c.pod.stOk = true ∧ c.pod.created = true
+    0 ≤ c.pod.ord ∧ c.pod.stOk = true ∧ c.pod.created = true
   ords : (i.pods.map (·.pod.ord)).Nodup
   rev : ∃ l, (listedRevs i).getLast? = some l ∧ equalRev l (freshRev h i (listedRevs i)) = true
   noOrphanRev : (listRevisions i.store).any (·.owner == .none) = false
   small : i.pods.length ≤ freshId
   smallR : (replicasOf i.view).toNat ≤ freshId
-  smallB : replicasOf i.view + i.view.slots.length ≤ maxInt32
   gone : i.fresh.gone = false
 
 /-- pod ids are list positions (what `reindex` establishes) -/
@@ -45,6 +44,35 @@ theorem reindex_idPos (l : List CPod) : IdPos (reindex l) := by
 
 theorem settle_idPos (i : SyncIn) : IdPos (settle i).pods := reindex_idPos _
 
+/-- pod ids are pairwise distinct and below the ids the model gives to new pods (what the proofs need of `IdPos`; it also
+    holds of a sublist of a reindexed list) -/
+structure IdOk (pods : List CPod) : Prop where
+  inj : ∀ a ∈ pods, ∀ b ∈ pods, a.pod.id = b.pod.id → a = b
+  lt : ∀ c ∈ pods, c.pod.id < freshId
+
+theorem idOk_of_idPos {pods : List CPod} (hp : IdPos pods) (hl : pods.length ≤ freshId) : IdOk pods := by
+  refine ⟨?_, ?_⟩
+  · intro a ha b hb hab
+    obtain ⟨i, hi⟩ := List.mem_iff_getElem?.1 ha
+    obtain ⟨k, hk⟩ := List.mem_iff_getElem?.1 hb
+    have h1 := hp i a hi
+    have h2 := hp k b hk
+    have : i = k := by omega
+    subst this
+    rw [hi] at hk
+    exact Option.some.inj hk
+  · intro c hc
+    obtain ⟨i, hi⟩ := List.mem_iff_getElem?.1 hc
+    have h1 := hp i c hi
+    have : i < pods.length := by
+      by_contra hge
+      rw [List.getElem?_eq_none (by omega)] at hi
+      cases hi
+    omega
+
+theorem IdOk.sublist {A B : List CPod} (hB : IdOk B) (hs : A.Sublist B) : IdOk A :=
+  ⟨fun a ha b hb => hB.inj a (hs.subset ha) b (hs.subset hb), fun c hc => hB.lt c (hs.subset hc)⟩
+
 theorem NormC.ownPods {h : Hashing} {i : SyncIn} (hn : NormC h i) : ownPods i = i.pods := by
   unfold Asts.C02p.ownPods
   rw [List.filter_eq_self]
@@ -61,7 +89,7 @@ theorem NormC.snap {h : Hashing} {i : SyncIn} (hn : NormC h i) (hid : IdPos i.po
   · intro p hp
     rw [List.mem_map] at hp
     obtain ⟨c, hc, rfl⟩ := hp
-    exact (hn.pods c hc).2.2.2.2.2.2.2
+    exact (hn.pods c hc).2.2.2.2.2.2
   · rw [List.map_map]; exact hn.ords
   · intro k p hk
     rw [List.getElem?_map] at hk
